@@ -69,3 +69,13 @@ add("C20",
     "(they decide who is cloned/promoted/stopped), order and batching of results inside a poll symbolic; resume / warm start only while the checkpoint exists, no deletion for running trials",
     "symbolic execution of the real tuning loop + real schedulers (CrossHair engine + z3), checkpoint-existence monitor in the scripted backend",
     "DESIGN.md 4 C20", note=LOOP_NOTE)
+add("C04",
+    "bounded model checking of the real promotion-type HyperbandScheduler (promotion, rush_promotion, cost_promotion, PASHA) against an eligibility reference: every metric/cost valuation and every "
+    "interleaving of suggest calls and reports of <=2 concurrent trials for T<=3 trials / <=8 events, with and without checkpointing and max_resource_attr",
+    "symbolic execution of the real scheduler code (CrossHair engine + z3), reference-model oracle over the same symbolic values",
+    "DESIGN.md 4 C04")
+add("C05",
+    "bounded model checking of the real synchronous bracket manager / brackets / top-list and of the SynchronousHyperbandScheduler API: every return order of pending jobs of <=2-3 open brackets, "
+    "every failure subset (<=3), every metric valuation for the rung systems listed in the evidence; oracle: rung filling, promotion only after rung completion, top-k membership, bracket cycling, never blocks",
+    "symbolic execution of the real code (CrossHair engine + z3), reference-model oracle",
+    "DESIGN.md 4 C05")
